@@ -15,7 +15,7 @@ from vf import report
 from vf.explore import parallel
 
 SEGS = ['engine.io', 'engine.iox', 'static', '..', '.', '', 'index.html',
-        'secret.txt', '%2e%2e', 'sub', 'file.css']
+        'secret.txt', '%2e%2e', 'sub', 'file.css', 'root-private']
 UNCLEAN = {'..', '.', '', '%2e%2e'}
 CTYPES = {'css': 'text/css', 'gif': 'image/gif', 'html': 'text/html',
           'jpg': 'image/jpeg', 'js': 'application/javascript',
@@ -30,6 +30,7 @@ FILES = ['root/index.html', 'root/file.css', 'root/image.gif', 'root/noext',
          'root/sub/image.gif', 'root/sub/deep/x.txt', 'root/engine.io/index.html',
          'root/static/file.css',
          'single.html', 'secret.txt', 'other/index.html', 'other/secret.txt',
+         'root-private/secret.txt', 'root-private/index.html', 'rootx',
          'index.html', 'file.css']
 
 
